@@ -9,6 +9,7 @@ Invariants: BarrierComplete (callbacks whose call_rcu() had returned when rcu_ba
 returns), NoUseAfterFree / FreedOnce (completion and work items: the library's calloc/free are interposed, freed objects are
 quarantined), TLC deadlock check + liveness (BarrierReturns) under fairness; negative controls: count taken outside the
 mutex, countdown published as zero, reference count ignored.
+qsbr (caller online / offline): integration runs over the real src/urcu-qsbr.c (cc.real_flavor "qsbr").
 """
 from vlib import *
 import callrcu_common as cc
@@ -18,12 +19,17 @@ ASSUMPTIONS = [
     "x86-TSO memory model (Sewell et al.); compiler honours volatile/atomic accesses and asm barriers",
     "serialised execution: scheduling points are the hooked shared accesses and blocking calls",
     "grace period abstract both in the specification and in the executed code (urcu-call-rcu-impl.h compiled against the framework's abstract flavor; C01 covers the flavors)",
-    "rcu_barrier() is not called from a read-side critical section nor from a callback (documented misuse; the qsbr online/offline bracket is not executed)",
+    "rcu_barrier() is not called from a read-side critical section nor from a callback (documented misuse)",
+    "qsbr: the caller-online and caller-offline forms of rcu_barrier() are executed inside the real src/urcu-qsbr.c translation unit (integration runs: driver oracles, "
+    "DEADLOCK / BUDGET oracles for a barrier that never returns, executions projected on the call_rcu component and validated against CallRcu); "
+    "real-time (polling) helpers are not part of the qsbr runs (their offline/online stores at every poll defeat the runtime's parked-helper detection)",
     "callbacks terminate",
     "bounds: <= 2 concurrent rcu_barrier() calls, <= 2 helpers, <= 2 rcu_heads, one concurrent enqueuer or one concurrent call_rcu_data_free; store buffers <= 2 in TLC",
 ]
 QUICK = ["crcu_bar1", "crcu_2bar_s"]
-THOROUGH = ["crcu_bar_e", "crcu_spur", "crcu_bar_free", "crcu_bar_rt", "crcu_bar", "crcu_2bar"]
+THOROUGH = ["crcu_bar_e", "crcu_spur", "crcu_bar_free", "crcu_bar_rt", "crcu_bar", "crcu_2bar", "crcu_bar_off"]
+QSBR_QUICK = ["crcu_bar1", "crcu_bar_off"]
+QSBR_THOROUGH = ["crcu_bar1", "crcu_bar_off", "crcu_2bar_s", "crcu_bar_e"]
 NEG_QUICK = [("crcu_bar1", ["earlycount"], "BarrierComplete"), ("crcu_bar1", ["noref"], "")]
 NEG_THOROUGH = [("crcu_bar_free", ["nomutex"], "")]
 LIVE = [("crcu_live", ["EventuallyInvoked", "BarrierReturns"])]
@@ -36,8 +42,10 @@ def run(ctx):
         cc.run_property(ctx, "C04", QUICK + ["crcu_bar_free"], NEG_QUICK, LIVE, nseeds=40, nscript=0, sc_tsos={s: (0, 1) for s in QUICK + ["crcu_bar_free"]},
                         mc_workers=3, mc_timeout=900, conf_only=("crcu_bar_free",))
         cc.real_flavor(ctx, "mb", ["crcu_bar1"], nseeds=15)
+        cc.real_flavor(ctx, "qsbr", QSBR_QUICK, nseeds=10, tsos=(0, 1))
     else:
         cc.real_flavor(ctx, "mb", QUICK + ["crcu_bar_free", "crcu_bar_rt"], nseeds=150, tsos=(0, 1))
+        cc.real_flavor(ctx, "qsbr", QSBR_THOROUGH, nseeds=100, tsos=(0, 1))
         cc.run_property(ctx, "C04", QUICK + THOROUGH, NEG_QUICK + NEG_THOROUGH, LIVE, nseeds=500, nscript=0, sc_tsos={s: (0, 1) for s in QUICK + THOROUGH},
                         mc_workers=4, mc_timeout=7200, coverage=True)
 
